@@ -53,6 +53,13 @@ func drawSync(rt *rapid.T, p *Plan, tier string) *Plan {
 	sp.Interval = rapid.IntRange(2, 4).Draw(rt, "interval")
 	minB := 2*sp.Interval + 1
 	p.Blocks = drawBlocks(rt, minB, minB+10, p.Proto.P2PSig)
+	if rapid.IntRange(0, 3).Draw(rt, "longsource") == 0 {
+		// a source chain that crosses header hash pages (16 headers under the verif build tag): the sync point, the
+		// headers received ahead of the state and the target's restarts land on both sides of page boundaries
+		for n := rapid.IntRange(10, 32).Draw(rt, "nempty"); n > 0; n-- {
+			p.Blocks = append(p.Blocks, BlockPlan{})
+		}
+	}
 	sp.TargetGC = rapid.IntRange(0, 2).Draw(rt, "tgc") != 0
 	sp.TargetKL = sp.TargetGC && rapid.Bool().Draw(rt, "tkl")
 	sp.Backend = rapid.IntRange(0, 4).Draw(rt, "sbackend")
@@ -402,6 +409,19 @@ func (sr *syncRun) feedHeaders() bool {
 		if err == nil && sr.T.BC.HeaderHeight() >= bad.Index && sr.T.BC.GetHeaderHash(bad.Index) != r.blks[bad.Index].Hash() {
 			r.violate(sim.Violatef("sync-bad-data-accepted", "sync-bad-data-accepted/header", "a header with a broken signature was accepted at height %d", bad.Index))
 			return false
+		}
+	}
+	if sr.sp.BadPM > 0 && r.tape.Chance(sr.sp.BadPM, 1000) {
+		// a batch that overlaps what the node knows with forged content and continues it with a header signed by the
+		// key the forged one names
+		if base, gerr := sr.T.BC.GetHeader(sr.T.BC.GetHeaderHash(hh)); gerr == nil {
+			x, n := r.forgedHeaders(base)
+			err := m.AddHeaders(x, n)
+			r.out.Faults["forged_header_batch"]++
+			if sr.T.BC.HeaderHeight() >= n.Index && sr.T.BC.GetHeaderHash(n.Index) == n.Hash() {
+				r.violate(sim.Violatef("sync-bad-data-accepted", "sync-bad-data-accepted/forged-header-batch", "header %d signed by a key that only the preceding header of the same batch (index %d, known with other content) names as next consensus was accepted (err=%v)", n.Index, x.Index, err))
+				return false
+			}
 		}
 	}
 	err := m.AddHeaders(hs...)
